@@ -2,6 +2,7 @@ import PrimaiteModel.Model.Basic
 import PrimaiteModel.Model.Obs
 import PrimaiteModel.Model.ObsTruth
 import PrimaiteModel.Model.ObsConfig
+import PrimaiteModel.Model.ObsFlat
 open Primaite Primaite.Obs
 
 /-! Line-protocol driver for the observation model (C02 and C09).
@@ -73,8 +74,8 @@ def pFile : P FileObs := do
   pure { wh := w, numAccess := na, scan := s, thr := t }
 
 def pFolder : P FolderObs := do
-  let w ← pW2; let s ← pBool; let c ← pNat; let fs ← many pFile
-  pure { wh := w, scan := s, files := fs, cached := c }
+  let w ← pW2; let s ← pBool; let c ← pNat; let u ← pOpt pNat; let fs ← many pFile
+  pure { wh := w, scan := s, files := fs, cached := c, cachedFor := u }
 
 def pNic : P NicObs := do
   let w ← pWN; let nm ← pBool; let li ← pNat; let lo ← pNat; let t ← pThr
@@ -141,8 +142,8 @@ def pFileState : P (String × FileState) := do
   pure (n, { health := h, visible := v, numAccess := a })
 
 def pFolderState : P (String × FolderState) := do
-  let n ← tok; let h ← pNat; let v ← pNat; let s ← pBool; let fs ← many pFileState
-  pure (n, { health := h, visible := v, scanned := s, files := fs })
+  let n ← tok; let h ← pNat; let v ← pNat; let s ← pBool; let u ← pOpt pNat; let fs ← many pFileState
+  pure (n, { health := h, visible := v, scanned := s, files := fs, uid := u })
 
 def pDir : P Dir := do
   let i ← pNat; let o ← pNat
@@ -184,8 +185,8 @@ def pFileT : P FileT := do
   pure { name := n, health := h, visible := v, numAccess := a }
 
 def pFolderT : P FolderT := do
-  let n ← tok; let h ← pNat; let v ← pNat; let s ← pBool; let fs ← many pFileT; let ds ← many pFileT
-  pure { name := n, health := h, visible := v, scanned := s, files := fs, deletedFiles := ds }
+  let n ← tok; let h ← pNat; let v ← pNat; let s ← pBool; let u ← pOpt pNat; let fs ← many pFileT; let ds ← many pFileT
+  pure { name := n, health := h, visible := v, scanned := s, files := fs, deletedFiles := ds, uid := u }
 
 def pNicT : P NicT := do
   let num ← pNat; let en ← pBool; let sp ← pNat; let icmp ← pOpt pDir
@@ -306,7 +307,8 @@ def tWN (w : Option (String × Nat)) : List String := tOpt (fun p => [p.1, toStr
 def tService (o : ServiceObs) : List String := tW2 o.wh ++ [tB o.scan]
 def tApp (o : AppObs) : List String := tW2 o.wh ++ [tB o.scan] ++ tThr o.thr
 def tFile (o : FileObs) : List String := tOpt (fun p => [p.1, p.2.1, p.2.2]) o.wh ++ [tB o.numAccess, tB o.scan] ++ tThr o.thr
-def tFolder (o : FolderObs) : List String := tW2 o.wh ++ [tB o.scan, toString o.cached] ++ tMany tFile o.files
+def tFolder (o : FolderObs) : List String :=
+  tW2 o.wh ++ [tB o.scan, toString o.cached] ++ (match o.cachedFor with | none => ["-"] | some u => ["+", toString u]) ++ tMany tFile o.files
 def tNic (o : NicObs) : List String :=
   tWN o.wh ++ [tB o.includeNmne, toString o.lastIn, toString o.lastOut] ++ tThr o.thr ++
     tMany (fun (p : String × List Nat) => p.1 :: tMany (fun q => [toString q]) p.2) o.traffic
@@ -365,6 +367,8 @@ partial def showSpace : Space → String
 
 structure St where
   o : Obs := .null
+  /-- the value of the latest `obs` / `spec` (what `gflat` flattens) and the object that produced it -/
+  last : Option (Space × Val) := none
 
 def run {α} (p : P α) (ws : List String) : Option α :=
   match p ws with
@@ -383,7 +387,14 @@ def step (s : St) : List String → St × String
   | ["default"] => (s, report s.o s.o.default)
   | "obs" :: ws =>
     match run pState ws with
-    | some st => ({ s with o := s.o.next st }, report s.o (s.o.val st))
+    | some st => ({ s with o := s.o.next st, last := some (s.o.space, s.o.val st) }, report s.o (s.o.val st))
+    | none => (s, "bad-op")
+  | ["gflat"] =>
+    match s.last with
+    | some (sp, v) =>
+      match gymFlatten sp v with
+      | some x => (s, String.join (x.map toString))
+      | none => (s, "raised")
     | none => (s, "bad-op")
   | "peek" :: ws =>
     match run pState ws with
@@ -393,13 +404,13 @@ def step (s : St) : List String → St × String
     match run pTruth ws with
     | some t =>
       let st := describe t
-      ({ s with o := s.o.next st },
+      ({ s with o := s.o.next st, last := some (s.o.space, s.o.val st) },
        showVal (s.o.spec t) ++ " | " ++ report s.o (s.o.val st))
     | none => (s, "bad-op")
   | "rawcfg" :: ws =>
     match run (do let t ← pThrCfg; let r ← pRawObs; pure (t, r)) ws with
     | some (t, r) =>
-      match r.build t with
+      match r.buildV t with
       | some o => ({ s with o := o }, "ok")
       | none => ({ s with o := .null }, "rejected")
     | none => (s, "bad-op")
